@@ -4,6 +4,7 @@
    to the runner again). *)
 From DoitV Require Import Base Dispatch Runner Parallel DispatchP DispatchInv RunnerTr RunnerP ParallelP AncP HoldP HoldG CompleteP ParHoldP TermP LiveP OrderP.
 From DoitV Require Import ParStepP ParLiveP ParTermP ParOutcomeLiveP ParLiveEx.
+From DoitV Require Import Select SelectP ApiSelect ApiSelectP.
 Open Scope N_scope.
 
 (* serial runner, every task table / selection / flags / set-iteration oracle / fuel:
@@ -187,3 +188,91 @@ Theorem C02_parallel_acyclic_continue_all_reported :
   snd res = 4 \/ (snd res <= 2 /\ forall x, In x selection -> pfinished (fst res) x).
 Proof. exact parallel_acyclic_continue_all_reported. Qed.
 Print Assumptions C02_parallel_acyclic_continue_all_reported.
+
+(* ===== the selection made through the API entry point doit.api.run_tasks(loader, {name: options, ..})
+   (Model/ApiSelect.v on top of Model/Select.v; Proofs/ApiSelectP.v).  "The selection" of the property is what
+   TaskControl.process hands to the dispatcher (the `selection` of the theorems above); through the API it is
+   computed from the keys of the dict by the same _process_filter as a command line, started in the state the
+   loader leaves: the tasks that got a positional value (pos_arg) through the dict do not take the rest of the
+   keys as their values. ===== *)
+
+(* every key names a task, and every such task that declares pos_arg is given a positional value in the dict --
+   ANY value that is not None: an empty list, an empty string, a non-empty one.  Then the selection is exactly
+   the keys, each once, in the order of the dict: nothing after a task with positional values is swallowed
+   (any table that loads, any string oracles, --single or not, any default_tasks) *)
+Theorem C02_api_selection_is_the_keys :
+  forall has_star matches basename_of re_match regex_name is_regex_name is_opt auto single o d tb c,
+  init matches tb = inr c -> o <> [] -> NoDup (api_keys o) -> api_all_given has_star is_opt tb o ->
+  api_run_select has_star matches basename_of re_match regex_name is_regex_name is_opt auto single o d tb =
+  ARes (ROk (if single then single_step (c_tasks c) (api_keys o) else c_tasks c) (c_targets c) (api_keys o)).
+Proof. exact api_selection_is_the_keys. Qed.
+Print Assumptions C02_api_selection_is_the_keys.
+
+(* whether a positional value given through the dict is empty (bool(value) is False: [], '', ()) or not changes
+   NOTHING of the selection -- result, error, task table: the dict with every given value replaced by a falsy one
+   selects the same.  No hypothesis. *)
+Theorem C02_api_falsy_value_is_a_value :
+  forall has_star matches basename_of re_match regex_name is_regex_name is_opt auto single o d tb,
+  api_run_select has_star matches basename_of re_match regex_name is_regex_name is_opt auto single (api_erase o) d tb =
+  api_run_select has_star matches basename_of re_match regex_name is_regex_name is_opt auto single o d tb.
+Proof. exact api_falsy_value_is_a_value. Qed.
+Print Assumptions C02_api_falsy_value_is_a_value.
+
+(* the documented rule for a task with pos_arg that gets NO positional value through the dict (its parameter is
+   absent, or None): the keys after it are its positional values, the selection is the keys up to and including it
+   (the keys before it as in the first theorem; nothing raises TypeError: no task with pos_arg has None for a dict) *)
+Theorem C02_api_selection_cut_at_task_without_positional_value :
+  forall has_star matches basename_of re_match regex_name is_regex_name is_opt auto single o1 k v o2 d tb c t,
+  init matches tb = inr c -> NoDup (api_keys (o1 ++ (k, v) :: o2)) -> api_type_error tb (o1 ++ (k, v) :: o2) = false ->
+  api_all_given has_star is_opt tb o1 ->
+  is_opt k = false -> has_star k = false -> lookup tb k = Some t -> s_pos_arg t = true -> api_given v = false ->
+  Forall (fun x => is_opt x = false) (api_keys o2) ->
+  api_run_select has_star matches basename_of re_match regex_name is_regex_name is_opt auto single (o1 ++ (k, v) :: o2) d tb =
+  ARes (ROk (if single then single_step (c_tasks c) (api_keys o1 ++ [k]) else c_tasks c) (c_targets c) (api_keys o1 ++ [k])).
+Proof. exact api_selection_cut. Qed.
+Print Assumptions C02_api_selection_cut_at_task_without_positional_value.
+
+(* a dict that gives nobody a positional value selects what the same names select on the command line
+   (Model/Select.v cmd_run_select, the subject of C12) *)
+Theorem C02_api_without_values_is_the_command_line :
+  forall has_star matches basename_of re_match regex_name is_regex_name is_opt auto single o d tb,
+  api_type_error tb o = false -> api_posset tb o = [] ->
+  api_run_select has_star matches basename_of re_match regex_name is_regex_name is_opt auto single o d tb =
+  ARes (cli_run_select has_star matches basename_of re_match regex_name is_regex_name is_opt auto single o d tb).
+Proof. exact api_without_values_is_the_command_line. Qed.
+Print Assumptions C02_api_without_values_is_the_command_line.
+
+(* with patterns among the keys: _process_filter yields the keys with every pattern replaced by the names it
+   matches, provided every EXPLICITLY named task with pos_arg already has its positional values (P) *)
+Theorem C02_api_filter_with_patterns :
+  forall has_star matches is_opt order tb P sel m st,
+  (forall x, In x P -> In x (p_posset st)) -> given_sel has_star is_opt tb P sel ->
+  (m = MName \/ exists o, m = MOpts o false) ->
+  exists st', process_filter has_star matches is_opt order tb m st sel = Some (expand_sel has_star matches order sel, st').
+Proof. exact process_filter_given. Qed.
+Print Assumptions C02_api_filter_with_patterns.
+
+(* non-vacuity (the shape of seeded change C02f): pack = 0 declares pos_arg, stage = 1, deploy = 2 depends on stage.
+   {'pack': {'files': []}, 'deploy': {}} selects [pack; deploy] -- the hypotheses of the first theorem hold;
+   {'pack': {}, 'deploy': {}} selects [pack] (deploy is pack's positional value);
+   {'pack': None, 'deploy': {}} raises TypeError *)
+Definition ex02api : table :=
+  [(0, Build_stask [] [] [] [] [] [] false None None true []);
+   (1, Build_stask [] [] [] [] [] [] false None None false []);
+   (2, Build_stask [1] [] [] [] [] [] false None None false [])].
+Definition nostar (_ : name) := false.
+Definition nomatch (_ _ : name) := false.
+Definition idname (s : name) := s.
+Definition noname (_ _ : name) : name := 99.
+Example C02_api_nonvacuous :
+  enc_api (api_run_select nostar nomatch idname nomatch noname nostar nostar false false [(0, AVal true); (2, AAbsent)] None ex02api) = [0; 0; 2]%Z /\
+  enc_api (api_run_select nostar nomatch idname nomatch noname nostar nostar false false [(0, AAbsent); (2, AAbsent)] None ex02api) = [0; 0]%Z /\
+  enc_api (api_run_select nostar nomatch idname nomatch noname nostar nostar false false [(0, ANone); (2, AAbsent)] None ex02api) = [0; 0]%Z /\
+  enc_api (api_run_select nostar nomatch idname nomatch noname nostar nostar false false [(0, ANoDict); (2, AAbsent)] None ex02api) = [5]%Z /\
+  (exists c, init nomatch ex02api = inr c) /\ api_all_given nostar nostar ex02api [(0, AVal true); (2, AAbsent)].
+Proof.
+  split; [vm_compute; reflexivity|]. split; [vm_compute; reflexivity|]. split; [vm_compute; reflexivity|].
+  split; [vm_compute; reflexivity|]. split; [eexists; vm_compute; reflexivity|].
+  intros k0 v0 [H|[H|[]]]; inversion H; subst; (split; [reflexivity|]); (split; [reflexivity|]); eexists;
+    (split; [vm_compute; reflexivity|]); simpl; auto; discriminate.
+Qed.
